@@ -3,6 +3,7 @@ CONSTANTS
   W = 1
   MaxOps = 4
   MaxParOps = 3
+  MaxLadder = 6
   MaxUnOps = 2
   Tuples <- MCTuples
 INVARIANTS Agreement DevIsNamed Bounded
